@@ -210,21 +210,24 @@ macro_rules! rt_stream_alias {
 
 /// CTS: symbolic length in [b, M]: decrypt(encrypt(m)) == m, nothing beyond the message touched.
 macro_rules! rt_cts {
-    ($name:ident, $unw:expr, $ty:ident, $bs:ty, $b:expr, $par:ty, $m:expr) => {
+    ($name:ident, $unw:expr, $ty:ident, $bs:ty, $b:expr, $par:ty, $m:expr $(, $lo:expr)?) => {
         #[kani::proof]
         #[kani::unwind($unw)]
         pub fn $name() {
             const B: usize = $b;
             const M: usize = $m;
+            #[allow(unused_mut, unused_assignments)]
+            let mut lo: usize = B;
+            $( lo = $lo; )?
             let key: [u8; 2] = kani::any();
             let iv: [u8; B] = kani::any();
             let msg: [u8; M] = kani::any();
             let len: usize = kani::any();
-            kani::assume(len >= B && len <= M);
+            kani::assume(len >= lo && len <= M);
             let mut buf = msg;
             let mut out: [u8; M] = kani::any();
             let dirty = out;
-            split_on!(len, B, M, l => {
+            split_on!(len, lo, M, l => {
                 assert!(crate::common::mk::$ty(Uf::<$bs, $par>::with_key(key), &iv).encrypt(&mut buf[..l]).is_ok());
                 assert!(crate::common::mk::$ty(Uf::<$bs, $par>::with_key(key), &iv).decrypt_b2b(&buf[..l], &mut out[..l]).is_ok());
             });
@@ -237,9 +240,8 @@ macro_rules! rt_cts {
                 }
                 i += 1;
             }
-            kani::cover!(len == B);
+            kani::cover!(len == lo);
             kani::cover!(len == M);
-            kani::cover!(len == 2 * B);
         }
     };
 }
@@ -278,6 +280,9 @@ rt_stream_ctr!(rt_ctr128be_b16_w1_l18, 80, Ctr128BE, u128, U16, 16, U1, 18);
 rt_stream_ctr!(rt_ctr128le_b16_w2_l18, 80, Ctr128LE, u128, U16, 16, U2, 18);
 rt_stream_alias!(rt_ofb_b2_l7, 48, ofb::Ofb<UfE<U2, U2>>, U2, 2, 7);
 rt_stream_alias!(rt_belt_l18, 80, BeltPreset, U16, 16, 18);
+rt_cts!(rt_cts_cbc_cs1_b1_w2_l8_from6, 48, CbcCs1, U1, 1, U2, 8, 6);
+rt_cts!(rt_cts_cbc_cs3_b1_w2_l8_from6, 48, CbcCs3, U1, 1, U2, 8, 6);
+rt_cts!(rt_cts_ecb_cs2_b1_w2_l8_from6, 48, EcbCs2, U1, 1, U2, 8, 6);
 rt_cts!(rt_cts_cbc_cs1_b2_w2_l7, 48, CbcCs1, U2, 2, U2, 7);
 rt_cts!(rt_cts_cbc_cs2_b2_w2_l7, 48, CbcCs2, U2, 2, U2, 7);
 rt_cts!(rt_cts_cbc_cs3_b2_w2_l7, 48, CbcCs3, U2, 2, U2, 7);
